@@ -98,7 +98,7 @@ def main():
                     'ran': ['git worktree add <scratch> HEAD; git apply patch.diff', 'pinned pytest suite in the scratch tree (junit vs BASELINE.json)',
                             'PYTHONPATH=<scratch> /venv/bin/python demo.py (before and after the patch)',
                             'VERIF_REPO=<scratch> ./check %s --tier %s' % (a.prop, a.tier)],
-                    'detected_by': res.get('detected_by', []), 'mechanisms': res['checks'][a.prop]['mechanisms'] if 'checks' in res else []}
+                    'detected_by': res.get('detected_by', []), 'mechanisms': [m for c in ([a.prop] + sorted(res.get('checks', {}))) for m in res.get('checks', {}).get(c, {}).get('mechanisms', [])][:6]}
             with open(os.path.join(dst, 'meta.json'), 'w') as f:
                 json.dump(meta, f, indent=1)
         return 0 if ok else 1
